@@ -358,6 +358,8 @@ async fn body(sc: &Sc, mons: &mon::Set) -> Obs {
 		match menu[choose(Kind::Env, menu.len())] {
 			Act::Op(s) => {
 				let si = senders.iter().position(|x| *x == s).unwrap();
+				let upto = if sc.burst { per_sender[si].len() } else { next_of[si] + 1 };
+				while next_of[si] < upto {
 				let (idx, op) = per_sender[si][next_of[si]];
 				next_of[si] += 1;
 				let j = job.as_ref().unwrap();
@@ -379,6 +381,7 @@ async fn body(sc: &Sc, mons: &mon::Set) -> Obs {
 						t.await;
 						simchild::note("resolved", idx as i64, w, "");
 					});
+				}
 				}
 			}
 			Act::Exit => {
